@@ -265,10 +265,12 @@ pub fn check(run: &Run) -> Value {
     }
     let (c0, e0) = (total.cases, total.executions);
     let scalar = crate::scalar::sweep(run, crate::scalar::Which::WriterVsSpec, &mut total);
+    let mixed = crate::mixed::sweep(run, "C03", &mut total);
     total.report(run);
     println!("C03 sweep: cases={} files={} outcomes={:?} doc_vectors={} scalar={}", c0, e0, total.outcomes, vectors, scalar);
     json!({
         "scalar_sweep": scalar,
+        "mixed_type_columns": mixed,
         "states": total.cases,
         "transitions": total.executions,
         "traces_validated_against_impl": total.executions,
